@@ -139,6 +139,14 @@ Proof.
     destruct t; [contradiction|]. cbn [length] in L. Lia.lia.
 Qed.
 
+(* ... and over a whole line: every span the IPv6 pass rewrites is delimited on both sides; what lies outside the spans is copied (C12_substitution_copies_unmatched_text) *)
+Theorem C06_ipv6_finditer_spans_are_delimited :
+  forall (s : list chr) (fuel i a b : nat),
+  In (a, b) (finditer s fuel IPV6_RX i) ->
+  (a = 0%nat \/ ((1 <= a)%nat /\ exists x, nth_error s (a - 1) = Some x /\ in_cset x cs9 = true)) /\
+  (eol s b = true \/ exists x, nth_error s b = Some x /\ in_cset x cs9 = true).
+Proof. exact Ipv4Token.ipv6_finditer_spans_are_delimited. Qed.
+
 Theorem C06_dotted_quad_parts_are_numerals_up_to_255 :
   forall t : list chr, Ipv4Token.octet_core t -> (Ipv4Token.dec_value t <= 255)%N /\ Forall Ipv4Token.dig t.
 Proof. exact Ipv4Token.octet_core_value. Qed.
@@ -157,3 +165,4 @@ Print Assumptions C06_a_standalone_dotted_quad_is_matched_as_a_whole.
 Print Assumptions C06_finditer_reports_every_standalone_dotted_quad.
 Print Assumptions C06_finditer_reports_only_standalone_dotted_quads.
 Print Assumptions C06_ipv4_pass_rewrites_exactly_the_standalone_dotted_quads.
+Print Assumptions C06_ipv6_finditer_spans_are_delimited.
